@@ -66,9 +66,44 @@ def _corrupt(rng, w, n_edits, where="any"):
     return s
 
 
+def _motif_graph(dsw, rng, k):
+    """Generated graph of order k whose mask forbids a few short motifs (and their reverse complements)."""
+    motifs = [gens.random_dna(rng, rng.choice([2, 2, 3])) for _ in range(rng.randint(1, 3))]
+    motifs += [oracles.revcomp(m) for m in motifs]
+    mask = np.array([not any(m in G.kmer(v, k) for m in motifs) for v in range(4 ** k)])
+    if not mask.any():
+        return None
+    try:
+        acc = np.asarray(dsw.connect_coding_graph(k, mask, 1)[1])
+    except ValueError:
+        return None
+    return acc if (acc >= 0).any() else None
+
+
 def generate(ctx):
     rng = ctx.rng
     dsw = import_dsw()
+    for _ in range(ctx.pick(6, 60)):
+        k = rng.choice([5, 5, 6])
+        acc = _motif_graph(dsw, rng, k)
+        if acc is None:
+            continue
+        gcase = dict(gens.graph_case(acc, k), fam="motif-screened")
+        live = G.live_vertices(acc)
+        for _w in range(ctx.pick(12, 30)):
+            start = int(rng.choice(live))
+            w = G.random_walk(acc, start, rng.randint(4 * k, 8 * k), rng)
+            if len(w) < 4 * k:
+                continue
+            p1 = rng.randrange(k, len(w) - 2 * k + 1)
+            p2 = min(len(w) - 1, p1 + rng.randint(k + 1, 2 * k - 2))     # two errors whose repair chunks overlap
+            s = list(w)
+            for p in (p1, p2):
+                s[p] = rng.choice([c for c in "ACGT" if c != s[p]])
+            s = "".join(s)
+            for check in {gens.random_dna(rng, 1), gens.random_dna(rng, 1), gens.random_dna(rng, 2), oracles.vt(w, rng.choice([1, 2, 4]))}:
+                yield "repair", dict(gcase, start=start, s=s, original=w, check=check, ck="near-pair",
+                                     indel=True, heap=rng.choice([1e3, 1e4]), tag="near-pair")
     for _ in range(ctx.pick(30, 300)):
         k = rng.choice([1, 2, 2, 3])
         states, first = [], None
@@ -228,7 +263,7 @@ def floors(agg, tier):
     c = agg["classes"]
     for name, need in (("clean|no check", 200), ("clean|check matches", 200), ("clean|check disagrees", 100),
                        ("fallback|check mismatches", 100), ("fallback|check matches", 100), ("product|with check", 100),
-                       ("product|check filtered a candidate out", 30), ("string|last-window", 100), ("string|first-window", 100)):
+                       ("product|check filtered a candidate out", 30), ("string|last-window", 100), ("string|first-window", 100), ("string|near-pair", 600)):
         if c.get(name, 0) < need:
             out.append("%s observed %d < %d" % (name, c.get(name, 0), need))
     for name, need in (("edit sequences (same accessor object overwritten in place)", 100), ("check passed as numpy.str_", 500), ("accessor layout|F", 500),
